@@ -108,7 +108,7 @@ func c04(c *core.Check) {
 	}
 
 	// ---- R1 table agreement
-	r1 := c.Rule("R1", "the KnownProp constants 1..NbProperties-1 are exactly the keys of InitialValues and propsNames; PropsFromNames is the inverse of propsNames; names are the kebab-case of the constant; Inherited, InitialNotComputed, TableWrapperBoxProperties name known properties; Inherited agrees with CSS 2.1 Appendix F on the CSS 2.1 properties", 300)
+	r1 := c.Rule("R1", "the KnownProp constants 1..NbProperties-1 are exactly the keys of InitialValues and propsNames; PropsFromNames is the inverse of propsNames; names are the kebab-case of the constant; Inherited, InitialNotComputed, TableWrapperBoxProperties name known properties; Inherited agrees with CSS 2.1 Appendix F on the CSS 2.1 properties", 626)
 	iv, err := p.Table("css/properties", "InitialValues")
 	names, err2 := p.Table("css/properties", "propsNames")
 	fromNames, err3 := p.Table("css/properties", "PropsFromNames")
@@ -199,7 +199,7 @@ func c04(c *core.Check) {
 	}
 
 	// ---- R6 initial values = CSS 2.1
-	r6 := c.Rule("R6", "for keyword-valued CSS 2.1 properties the InitialValues literal carries the Appendix F initial keyword", 30)
+	r6 := c.Rule("R6", "for keyword-valued CSS 2.1 properties the InitialValues literal carries the Appendix F initial keyword", 31)
 	var initNames []string
 	for n := range css21Initial {
 		initNames = append(initNames, n)
@@ -241,7 +241,7 @@ func c04(c *core.Check) {
 	c04NoDeclarations(c)
 
 	// ---- R9 computed values are per element: a computer function never converts the declared value in place
-	r9 := c.Rule("R9", "no computer function writes through the declared value it receives (it belongs to the stylesheet or to the initial values and is shared by every element the rule matches): otherwise the first element computed fixes the value of all the others", 30)
+	r9 := c.Rule("R9", "no computer function writes through the declared value it receives (it belongs to the stylesheet or to the initial values and is shared by every element the rule matches): otherwise the first element computed fixes the value of all the others", 34)
 	{
 		eng := core.NewEffectsEngine(p, func(fn *ssa.Function, in ssa.Instruction) bool {
 			_, ok := c15WriteExempt[core.FuncName(fn)+" | "+p.StmtTextAt(fn, in.Pos())]
@@ -323,7 +323,7 @@ func typeFits(t, slot types.Type) bool {
 
 func c04SlotTyping(c *core.Check, K map[int64]string, ivKeys map[int64]core.TableEntry) {
 	p := c.Prog
-	r2 := c.Rule("R2", "for every property P with accessor type T(P) (the type asserted by Properties.GetP): the InitialValues literal, every concrete type a validator of P can return (unless the computer of P asserts and converts it), every concrete type the computer of P can return, and AnonymousStyle's pre-seeded entries have type T(P); generated accessors of ComputedStyle/AnonymousStyle assert the same T(P)", 500)
+	r2 := c.Rule("R2", "for every property P with accessor type T(P) (the type asserted by Properties.GetP): the InitialValues literal, every concrete type a validator of P can return (unless the computer of P asserts and converts it), every concrete type the computer of P can return, and AnonymousStyle's pre-seeded entries have type T(P); generated accessors of ComputedStyle/AnonymousStyle assert the same T(P)", 706)
 	T := slotTypes(p)
 	info := p.Info("css/properties")
 	var vals []int64
@@ -569,7 +569,7 @@ func ratOf(v constant.Value) *big.Rat {
 
 func c04Units(c *core.Check) {
 	p := c.Prog
-	r3 := c.Rule("R3", "LengthsToPixels = {px:1, pt:96/72, pc:16, in:96, cm:96/2.54, mm:96/25.4, q:96/101.6} (compared as exact rationals after rounding to float32, the table's element type); the absolute-unit cases of tree.length_ are exactly its keys; every unit in validation.LENGTHUNITS has a case in length_", 20)
+	r3 := c.Rule("R3", "LengthsToPixels = {px:1, pt:96/72, pc:16, in:96, cm:96/2.54, mm:96/25.4, q:96/101.6} (compared as exact rationals after rounding to float32, the table's element type); the absolute-unit cases of tree.length_ are exactly its keys; every unit in validation.LENGTHUNITS has a case in length_", 37)
 	unitConsts := p.ConstsOfType("css/properties", "Unit")
 	unitName := map[int64]string{}
 	for v, k := range unitConsts {
@@ -652,7 +652,7 @@ func c04Units(c *core.Check) {
 
 func c04EnumArith(c *core.Check, K map[int64]string, nameOf map[int64]string) {
 	p := c.Prog
-	r4 := c.Rule("R4", "the enum layout relied upon by arithmetic on property ids holds: PBorderBottomColor+5*side+{0..4} are the color/style/width/margin/padding of sides bottom,left,right,top; PMinX = PX+2 and PMaxX = PX+4 for width/height; border-*-width - 1 is the matching border-*-style; the text-decoration range holds exactly the text-decoration-* properties", 20)
+	r4 := c.Rule("R4", "the enum layout relied upon by arithmetic on property ids holds: PBorderBottomColor+5*side+{0..4} are the color/style/width/margin/padding of sides bottom,left,right,top; PMinX = PX+2 and PMaxX = PX+4 for width/height; border-*-width - 1 is the matching border-*-style; the text-decoration range holds exactly the text-decoration-* properties", 28)
 	byName := map[string]int64{}
 	for v, n := range nameOf {
 		byName[n] = v
@@ -791,7 +791,7 @@ func isDefaultValueConst(v ssa.Value, want int64) bool {
 
 func c04Skeleton(c *core.Check) {
 	p := c.Prog
-	r7 := c.Rule("R7", "defaulting skeleton of (*ComputedStyle).cascadeValue and (*AnonymousStyle).Get: with no cascaded entry the value is Inherit iff Inherited.Has(key.KnownProp) || key.Var != \"\" and Initial otherwise; on the root Inherit becomes Initial; Initial is replaced by InitialValues[key.KnownProp]; Inherit by parentStyle.Get(key)", 8)
+	r7 := c.Rule("R7", "defaulting skeleton of (*ComputedStyle).cascadeValue and (*AnonymousStyle).Get: with no cascaded entry the value is Inherit iff Inherited.Has(key.KnownProp) || key.Var != \"\" and Initial otherwise; on the root Inherit becomes Initial; Initial is replaced by InitialValues[key.KnownProp]; Inherit by parentStyle.Get(key)", 9)
 	cv := p.Method("html/tree", "ComputedStyle", "cascadeValue")
 	if cv == nil {
 		r7.Anchor("html/tree.(*ComputedStyle).cascadeValue")
@@ -1046,7 +1046,7 @@ func isInterface(v ssa.Value) bool {
 
 func c04RelativeUnits(c *core.Check) {
 	p := c.Prog
-	r8 := c.Rule("R8", "tree.length_, folded as a polynomial for each unit constant: em = value·fontSize argument (or the element's computed font size when the argument is negative), rem = value·root font size, ex/ch = value·fontSize·CharacterRatio(isCh=false/true), absolute units = value·LengthsToPixels[unit], px unchanged; all results in px", 12)
+	r8 := c.Rule("R8", "tree.length_, folded as a polynomial for each unit constant: em = value·fontSize argument (or the element's computed font size when the argument is negative), rem = value·root font size, ex/ch = value·fontSize·CharacterRatio(isCh=false/true), absolute units = value·LengthsToPixels[unit], px unchanged; all results in px", 18)
 	lf := p.Fn("html/tree", "length_")
 	charRatio := p.Fn("text", "CharacterRatio")
 	l2p := p.Global("css/properties", "LengthsToPixels")
@@ -1309,7 +1309,7 @@ func parentNilGuard(c *core.Check, r *core.Rule) {
 // c04ComputedUnits: the dimensions built by the computer functions carry a computed unit.
 func c04ComputedUnits(c *core.Check) {
 	p := c.Prog
-	r := c.Rule("R10", "every dimension the computer functions of html/tree build with a constant unit carries a computed unit (px, % or the unit-less scalar): an absolute or font-relative unit written here would skip the conversion to px that every other length goes through", 6)
+	r := c.Rule("R10", "every dimension the computer functions of html/tree build with a constant unit carries a computed unit (px, % or the unit-less scalar): an absolute or font-relative unit written here would skip the conversion to px that every other length goes through", 8)
 	unitName := map[int64]string{}
 	for v, k := range p.ConstsOfType("css/properties", "Unit") {
 		unitName[v] = k.Name()
@@ -1397,7 +1397,7 @@ func c04LineHeight(c *core.Check) {
 // c04FontSizeArg: the reference font size handed to length_.
 func c04FontSizeArg(c *core.Check) {
 	p := c.Prog
-	r := c.Rule("R12", "every call of tree.length_ passes as reference font size either a negative constant (length_ then takes the element's own computed font size) or a value that is itself a font size (the parent's, for the font-size property): a non-negative constant makes every em, ex and ch length a multiple of that constant", 15)
+	r := c.Rule("R12", "every call of tree.length_ passes as reference font size either a negative constant (length_ then takes the element's own computed font size) or a value that is itself a font size (the parent's, for the font-size property): a non-negative constant makes every em, ex and ch length a multiple of that constant", 16)
 	fn := p.Fn("html/tree", "length_")
 	if fn == nil || len(fn.Params) != 4 {
 		r.Anchor("html/tree.length_")
